@@ -54,12 +54,17 @@ def spd(rng, n, scale, diagonal=False):
 def gen_system(rng, n, m, p, nonlinear=False):
     g = lambda r, c, s: [[rng.gauss(0, 1) * s for _ in range(c)] for _ in range(r)]
     v = lambda d, s: [rng.gauss(0, 1) * s for _ in range(d)]
+    nl = 0.15 if nonlinear is True else float(nonlinear)
     return dict(A=g(n, n, 0.9 / math.sqrt(n)), B=g(n, p, 1.0), C=g(m, n, 1.0), D=g(m, p, 1.0), c1=v(n, 1.0), c2=v(m, 1.0),
-                a=v(n, 0.15) if nonlinear else [0.0] * n, b=v(m, 0.15) if nonlinear else [0.0] * m)
+                a=v(n, nl) if nonlinear else [0.0] * n, b=v(m, nl) if nonlinear else [0.0] * m)
 
 
 def gen_case(rng, n, m, p, nonlinear=False, scales=None, k=None, diagonal=False):
+    """nonlinear: False, True (coefficients ~0.15) or a coefficient size.  For nonlinear systems a negative k
+    (negative centre weight) can make the predicted covariance indefinite -- outside every clause -- so k is made >= 0."""
     S = gen_system(rng, n, m, p, nonlinear)
+    if nonlinear and (3 - n if k is None else k) < 0:
+        k = 0
     sc = scales or [10.0 ** rng.uniform(-3, 3) for _ in range(3)]
     return dict(S=S, Q=spd(rng, n, sc[0]), R=spd(rng, m, sc[1]), P=spd(rng, n, sc[2], diagonal),
                 x=[rng.gauss(0, 1) * 2 for _ in range(n)], u=[rng.gauss(0, 1) for _ in range(p)],
@@ -245,6 +250,27 @@ def scales(c, outx, outP):
     return float(sx), float(sP)
 
 
+def reltol(c):
+    """relative tolerance: REL, widened to 1000 eps cond(S) for ill-conditioned innovation covariances
+    (measured on the unchanged tree: float error <= 14 eps cond(S) of the natural scale)"""
+    np = np_()
+    S = c['S']
+    x = np.array(c['x'], dtype=float)
+    A = np.array(S['A']) + 2 * np.diag(np.array(S['a']) * x)
+    C = np.array(S['C'], dtype=float).copy()
+    for i in range(min(C.shape)):
+        C[i, i] += 2 * S['b'][i] * x[i]
+    Pm = A @ np.array(c['P']) @ A.T + np.array(c['Q'])
+    Sm = C @ Pm @ C.T + np.array(c['R'])
+    try:
+        cond = float(np.linalg.cond(Sm)) * max(1.0, float(np.linalg.cond(np.array(c['P']))) ** 0.5)
+    except Exception:   # noqa
+        cond = 1e16
+    if not math.isfinite(cond):
+        cond = 1e16
+    return min(1e-2, max(REL, 1e3 * 2.2e-16 * cond))
+
+
 def flat(a):
     return [t for row in a for t in (row if isinstance(row, (list, tuple)) else [row])]
 
@@ -261,7 +287,7 @@ def fl(a):
     return [[float(t) for t in r] if isinstance(r, (list, tuple)) else float(r) for r in a]
 
 
-def sym_psd_defect(P, scale):
+def sym_psd_defect(P, scale, REL=REL):
     """None when P is symmetric and PSD up to REL*scale, else a description"""
     np = np_()
     M = np.array(P, dtype=float)
@@ -312,6 +338,7 @@ def judge_step(pp, torch, meta):
     except Exception as e:      # noqa
         return [('%s.forward:raises' % filt.upper(), '%s.forward raised %s: %s' % (filt.upper(), type(e).__name__, e))]
     sx, sP = scales(c, ox, oP)
+    REL = reltol(c)
     lin = is_linear(c['S'])
     out = []
     if filt == 'ekf':
@@ -327,7 +354,7 @@ def judge_step(pp, torch, meta):
             else:
                 out.append(('EKF.forward:mean-differs-from-kalman-filter-and-from-recorded-deviation',
                             'EKF mean %r; %s gives %r (recorded deviation would give %r)' % (ox, 'Kalman filter' if lin else 'documented recursion', fl(kx), fl(vx))))
-        d = sym_psd_defect(oP, sP)
+        d = sym_psd_defect(oP, sP, REL)
         if d:
             out.append(('EKF.forward:covariance-invalid', 'EKF: ' + d))
     else:
@@ -341,7 +368,7 @@ def judge_step(pp, torch, meta):
                 else:
                     out.append(('UKF.forward:differs-from-kalman-filter-and-from-recorded-deviation',
                                 'UKF (k=%r) returns mean %r covariance %r; Kalman filter: %r %r' % (kval(c), ox, oP, fl(kx), fl(kP))))
-        d = sym_psd_defect(oP, sP)
+        d = sym_psd_defect(oP, sP, REL)
         if d and (kval(c) >= 0 or 'symmetric' in d or 'finite' in d):
             out.append(('UKF.forward:covariance-invalid', 'UKF (k=%r): %s' % (kval(c), d)))
     return out
@@ -550,27 +577,50 @@ class Run:
             ctx.violation('%s.forward:non-finite-result' % filt.upper(), 'result %r %r' % (ox, oP), meta)
             return None
         sx, sP = scales(c, ox, oP)
+        rel = reltol(c)
+        if rel > REL:
+            ctx.count('tolerance-widened-ill-conditioned')
         i = len(self.metas)
         self.metas.append(meta)
-        self.lits[filt].append(fcase_lit(i, c, ox, oP, REL * sx, REL * sP))
+        self.lits[filt].append(fcase_lit(i, c, ox, oP, rel * sx, rel * sP))
         if judge:
             self.report(judge_step(self.pp, self.torch, meta), meta)
         return ox, oP
 
     # ---- a run: the user's loop around forward
     def run_case(self, filt, rng, n, m, p, T, nonlinear=False, kind='nls', k=None):
+        """the user's loop  x, P = filter(x, y_t, u_t, P, Q, R)  around a simulated stable system (measurement taken
+        after the transition, as the property states)"""
+        np = np_()
         c0 = gen_case(rng, n, m, p, nonlinear=nonlinear, k=k)
-        model = build_system(self.pp, self.torch, c0['S'], kind)
+        S = c0['S']
+        rho = max(abs(np.linalg.eigvals(np.array(S['A']))))
+        if rho > 0.9:
+            S['A'] = (np.array(S['A']) * (0.9 / rho)).tolist()
+        model = build_system(self.pp, self.torch, S, kind)
         x, P = c0['x'], c0['P']
+        LQ, LR = np.linalg.cholesky(np.array(c0['Q'])), np.linalg.cholesky(np.array(c0['R']))
+        xt = np.array(x) + np.linalg.cholesky(np.array(P)) @ np.array([rng.gauss(0, 1) for _ in range(n)])
+
+        def fq(Mx, Mu, cc, coef, d, xv, u):
+            sq = np.zeros(d)
+            sq[:min(d, n)] = (xv * xv)[:min(d, n)]
+            return np.array(S[Mx]) @ xv + np.array(S[Mu]) @ u + np.array(S[cc]) + np.array(S[coef]) * sq
         for t in range(T):
-            c = dict(c0, x=x, P=P, u=[rng.gauss(0, 1) for _ in range(p)], y=[rng.gauss(0, 1) * 3 for _ in range(m)])
+            u = np.array([rng.gauss(0, 1) for _ in range(p)])
+            xt = fq('A', 'B', 'c1', 'a', n, xt, u) + LQ @ np.array([rng.gauss(0, 1) for _ in range(n)])
+            yt = fq('C', 'D', 'c2', 'b', m, xt, u) + LR @ np.array([rng.gauss(0, 1) for _ in range(m)])
+            if not np.all(np.abs(xt) < 1e3):
+                self.ctx.count('run-stopped-simulated-state-diverged')
+                break
+            c = dict(c0, x=x, P=P, u=u.tolist(), y=yt.tolist())
             r = self.step_case(filt, c, kind, family='run', model=model, judge=(t % 5 == 4 or t < 2))
             if r is None:
                 break
             x, P = r
-            if not is_spd(P):
+            if not is_spd(P) or max(abs(t) for t in x) > 100.0 * (1.0 + float(np.abs(xt).max())):
                 # the state left the property's quantifier (possible for the UKF with a negative centre weight)
-                self.ctx.count('run-stopped-covariance-not-spd-' + filt)
+                self.ctx.count('run-stopped-covariance-not-spd-or-estimate-diverged-' + filt)
                 break
             self.ctx.count('run-steps-' + filt)
         self.ctx.traces += 1
@@ -682,6 +732,8 @@ def witnesses(R):
 def judge_pf(pp, torch, meta):
     b = judge_pf_band(pp, torch, meta['case'], meta['N'], meta['seed'])
     out = []
+    if b['neff'] < 50:        # weights collapsed onto a few particles: the standard error estimate is not reliable
+        return out
     if b['z_documented'] > 6:
         if b['z_coded'] <= 6:
             out.append((K_PF, 'PF mean %r (N=%d, N_eff=%.0f) is %.1f sigma from the posterior mean of the documented particle model %r and %.1f sigma from '
@@ -730,7 +782,7 @@ def run(ctx):
         [(rng.randint(1, 6), rng.randint(1, 6), rng.randint(1, 3), rng.choice([50, 50, 20, 35])) for _ in range(30)]
     for (n, m, p, T) in plan:
         for filt in ('ekf', 'ukf'):
-            R.run_case(filt, rng, n, m, p, T, nonlinear=(n == 3), k=None if filt == 'ekf' else rng.choice([None, 1, 0.5]))
+            R.run_case(filt, rng, n, m, p, T, nonlinear=(0.01 if n == 3 else False), k=None if filt == 'ekf' else rng.choice([None, 1, 0.5]))
     # ---- PF: recorded draws against the model
     for t in range(ctx.scale(24, 300)):
         n, m, p = rng.randint(1, 3), rng.randint(1, 3), rng.randint(1, 2)
@@ -742,14 +794,14 @@ def run(ctx):
         c['y'] = [float(v + rng.gauss(0, 1) * math.sqrt(max(c['R'][i][i], 1e-12))) for i, v in enumerate(ypred)]
         R.pf_case(c, rng.choice([1, 2, 5, 8, 12]), rng.randint(0, 10 ** 6), kind='nls' if t % 4 else ('sys' if is_linear(S) else 'nls'))
     # ---- PF: Monte-Carlo band on random linear systems (as-coded model must be met; the documented one is the finding)
-    for t in range(ctx.scale(3, 20)):
+    for t in range(ctx.scale(12, 100)):
         n, m = rng.randint(1, 3), rng.randint(1, 2)
         c = gen_case(rng, n, m, 1, scales=[1.0, 10.0 ** rng.uniform(-0.5, 0.5), 10.0 ** rng.uniform(-0.5, 0.5)])
         np = np_()
         S = c['S']
         ypred = np.array(S['C']) @ np.array(c['x']) + np.array(S['D']) @ np.array(c['u']) + np.array(S['c2'])
         c['y'] = [float(v + rng.gauss(0, 1)) for v in ypred]
-        meta = dict(kind='pfband', case=c, N=ctx.scale(20000, 200000), seed=rng.randint(0, 10 ** 6))
+        meta = dict(kind='pfband', case=c, N=rng.choice([1000, 20000, 200000] + ([1000000] if ctx.thorough and t % 10 == 0 else [])), seed=rng.randint(0, 10 ** 6))
         ctx.case(('pfband', repr(c)), branch='pf-band')
         R.report(judge_pf(pp, torch, meta), meta)
     # ---- Coq
